@@ -387,7 +387,9 @@ def generate():
            "From Qib Require Import Fermi.FermiModel.", "From Coq Require Import QArith.",
            "Local Open Scope Z_scope.", ""]
     for pre, (path, fname) in FILES.items():
-        fn = find_func(parse(path), fname)
+        tree = parse(path)
+        strict_toplevel(tree, path, [fname])
+        fn = find_func(tree, fname)
         defs, order, appended = table_loop(fn)
         out.append("(* ---- %s: %s *)" % (pre, path))
         for nm in order:
@@ -445,10 +447,11 @@ def generate_fo():
     """FieldOperator.as_matrix: the 2x2 site matrices, the Kronecker-factor selection rule of
     clist[i], and `alist = [c.conj().T for c in clist]`."""
     tree = parse(FO_FILE)
+    strict_toplevel(tree, FO_FILE, ["IFOType", "IFODesc", "FieldOperatorTerm", "FieldOperator"])
     cls = [n for n in tree.body if isinstance(n, ast.ClassDef) and n.name == "FieldOperator"]
     if len(cls) != 1:
         raise Unsupported("class FieldOperator not found")
-    fn = find_func(cls[0], "as_matrix")
+    fn = only_method(cls[0], "as_matrix")
     body = body_nodoc(fn)
     mats = {}
     loop = None
@@ -666,6 +669,107 @@ def assembly_loop(body, clist_loop):
             "      %s)\n"
             "    (all_idx n (length (tpat tm))) op)\n"
             "  terms mzero." % (bool(skip), "true" if skip else "false", inner))
+
+
+# ---------------------------------------------------------------------- strictness: one binding per name
+def strict_toplevel(tree, path, allowed_defs):
+    """the module consists of imports, a docstring and exactly the named classes / functions, each bound once
+    (a second `def`/assignment at the end of a file would silently replace what the translator read)"""
+    seen = []
+    for n in tree.body:
+        if isinstance(n, (ast.Import, ast.ImportFrom)):
+            continue
+        if isinstance(n, ast.Expr) and isinstance(n.value, ast.Constant) and isinstance(n.value.value, str):
+            continue
+        if isinstance(n, (ast.ClassDef, ast.FunctionDef)) and not n.decorator_list:
+            seen.append(n.name)
+            continue
+        raise Unsupported("%s: top-level statement `%s`" % (path, ast.unparse(n)[:60]))
+    if sorted(seen) != sorted(allowed_defs):
+        raise Unsupported("%s: top-level definitions %r, expected %r" % (path, seen, sorted(allowed_defs)))
+
+
+def only_method(cls, name):
+    ms = [n for n in cls.body if isinstance(n, ast.FunctionDef) and n.name == name]
+    others = [n for n in cls.body if isinstance(n, ast.Assign) and any(ast.unparse(t) == name for t in n.targets)]
+    if len(ms) != 1 or others:
+        raise Unsupported("%s.%s is not defined exactly once" % (cls.name, name))
+    return ms[0]
+
+
+# the methods that are hand-modelled in Qib.Fermi.FermiModel (tadj, tmul, op_adj, op_add, op_mul, herm_flag, ifo_adj):
+# their normalised source (docstrings and pure refusals `if ...: raise` removed) must be exactly this text
+FO_METHODS = {
+    ("IFOType", "adjoint", "otype"): """if otype == IFOType.BOSON_CREATE:
+    return IFOType.BOSON_ANNIHIL
+if otype == IFOType.BOSON_ANNIHIL:
+    return IFOType.BOSON_CREATE
+if otype == IFOType.FERMI_CREATE:
+    return IFOType.FERMI_ANNIHIL
+if otype == IFOType.FERMI_ANNIHIL:
+    return IFOType.FERMI_CREATE
+return otype""",
+    ("IFODesc", "__init__", "self,field,otype"): """self.field = field
+self.otype = otype""",
+    ("IFODesc", "adjoint", "self"): "return IFODesc(self.field, IFOType.adjoint(self.otype))",
+    ("FieldOperatorTerm", "__init__", "self,opdesc,coeffs"): """self.opdesc = tuple(opdesc)
+self.coeffs = np.asarray(coeffs)""",
+    ("FieldOperatorTerm", "is_hermitian", "self"): """n = len(self.opdesc)
+if not all((self.opdesc[i].field == self.opdesc[n - 1 - i].field and self.opdesc[i].otype == IFOType.adjoint(self.opdesc[n - 1 - i].otype) for i in range(n))):
+    return False
+return np.allclose(self.coeffs, self.coeffs.conj().T)""",
+    ("FieldOperatorTerm", "adjoint", "self"):
+        "return FieldOperatorTerm((desc.adjoint() for desc in reversed(self.opdesc)), self.coeffs.conj().T)",
+    ("FieldOperatorTerm", "__matmul__", "self,other"): """coeffs = np.kron(self.coeffs.reshape(-1), other.coeffs.reshape(-1)).reshape(self.coeffs.shape + other.coeffs.shape)
+return FieldOperatorTerm(self.opdesc + other.opdesc, coeffs)""",
+    ("FieldOperator", "__init__", "self,terms"): """if terms is None:
+    self.terms = []
+else:
+    self.terms = list(terms)""",
+    ("FieldOperator", "__add__", "self,other"): """if other == 0:
+    return self
+return FieldOperator(self.terms + other.terms)""",
+    ("FieldOperator", "__radd__", "self,other"): """if other == 0:
+    return self
+return FieldOperator(other.terms + self.terms)""",
+    ("FieldOperator", "__matmul__", "self,other"): "return FieldOperator([t1 @ t2 for t1 in self.terms for t2 in other.terms])",
+    ("FieldOperator", "adjoint", "self"): "return FieldOperator([term.adjoint() for term in self.terms])",
+}
+
+
+def is_refusal(s):
+    """`if c: raise ...` (also nested ifs that only raise): can only narrow the domain"""
+    return isinstance(s, ast.If) and all(isinstance(x, ast.Raise) or is_refusal(x) for x in s.body) \
+        and all(isinstance(x, ast.Raise) or is_refusal(x) for x in s.orelse)
+
+
+def generate_fo_methods():
+    """template tie for the small methods of field_operator.py that the Coq model copies by hand"""
+    tree = parse(FO_FILE)
+    strict_toplevel(tree, FO_FILE, ["IFOType", "IFODesc", "FieldOperatorTerm", "FieldOperator"])
+    classes = {n.name: n for n in tree.body if isinstance(n, ast.ClassDef)}
+    out = ["(* generated by gen/fermi.py: the hand-modelled methods of %s have exactly the expected source *)" % FO_FILE]
+    for (cname, mname, args), want in FO_METHODS.items():
+        cls = classes[cname]
+        if cls.decorator_list or cls.keywords:
+            raise Unsupported("class %s is decorated" % cname)
+        fn = only_method(cls, mname)
+        got_args = ",".join(a.arg for a in fn.args.args)
+        deco = [ast.unparse(d) for d in fn.decorator_list]
+        if got_args != args or fn.args.vararg or fn.args.kwarg or fn.args.kwonlyargs or deco not in ([], ["staticmethod"]):
+            raise Unsupported("%s.%s: signature (%s) %r" % (cname, mname, got_args, deco))
+        got = "\n".join(ast.unparse(st) for st in body_nodoc(fn) if not is_refusal(st))
+        if got != want:
+            raise Unsupported("%s.%s differs from the modelled source:\n%s" % (cname, mname, got))
+        out.append("(* %s.%s: as modelled *)" % (cname, mname))
+    # special methods that could change what the operations above mean
+    for cname in ("FieldOperatorTerm", "FieldOperator", "IFODesc"):
+        for n in classes[cname].body:
+            if isinstance(n, ast.FunctionDef) and n.name in ("__getattr__", "__getattribute__", "__setattr__", "__eq__", "__new__",
+                                                           "__iadd__", "__imatmul__", "__rmatmul__"):
+                raise Unsupported("%s defines %s" % (cname, n.name))
+    out.append("Definition gen_fo_methods_as_modelled : bool := true.")
+    return "\n".join(out) + "\n"
 
 
 if __name__ == "__main__":
